@@ -27,6 +27,9 @@ func Parse2(lookup ShortcodeToModule, pstr string) (*Path, error) {
 	if err := yyParse(l); err != 0 {
 		return nil, l.lastError
 	}
+	if l.stack.overflow {
+		return nil, fmt.Errorf("xpath has more than %d steps", nestedPathStack)
+	}
 	p := l.stack.pop()
 	for p.Parent != nil {
 		p = p.Parent
